@@ -6,6 +6,7 @@ import PugModel.Driver.C11
 import PugModel.Driver.C09
 import PugModel.Driver.C16
 import PugModel.Driver.C10
+import PugModel.Driver.C19
 /-!
 `pvd`: the model driver. One JSON case per line on stdin (the line the harness produced, with the
 implementation's answer merged in under "impl" for the cases whose model is relative to measured
@@ -23,6 +24,8 @@ def dispatch (c : Json) : Json × Json :=
   | "gopath" => runGoPath c
   | "gate" => runGateCase c
   | "startup" => runStartupCase c
+  | "asset" => runAssetCase c
+  | "clean" => runCleanCase c
   | "loadseq" => runLoadSeqCase c
   | "loadconc" => runLoadConcCase c
   | k => (clsOut "no-model" k, clsOut "no-model" k)
